@@ -79,7 +79,7 @@ example : ∀ its, parseItems 16 [0x0b, 0x02, 0x7f, 0xff, 0x0a, 0x01, 0x14, 0x10
 /-- the pinned commit's knobs, frozen (does not follow the AFTER-FIX switch of `pinnedKnobs`) -/
 def unfixedKnobs : Knobs := ⟨true, true, 4, 0⟩
 
-example : pinnedFields = fieldsWith unfixedKnobs := rfl   -- AFTER-FIX: delete this line (F1 is then repaired in /repo)
+-- (F1 is repaired in /repo: `pinnedFields` now differs from `fieldsWith unfixedKnobs` in the max_ack_delay row)
 
 /-- F1 (finding): `0b 04 80 00 40 00` = max_ack_delay 16384 is accepted by the code's table, the RFC says
     "Values of 2^14 or greater are invalid". Negation of the full-strength iff on a concrete witness. -/
